@@ -173,6 +173,12 @@ fn parse_event(s: &str) -> Option<RdpEvent> {
 
 pub struct Run { pub status: String, pub log: ConnLog, pub line: String, pub out: String }
 
+/// history of builder calls on the Connector before `connect` (the final value of every switch is the
+/// configured one): 0 = each switch set once; 1 = restricted admin switched on first, then the blank-credentials
+/// switch, then restricted admin set to its final value; 2 = blank credentials on, restricted admin on, both set
+/// to their final values in the opposite order; 3 = every switch set twice (complement first)
+pub static BUILDER_HIST: std::sync::atomic::AtomicU8 = std::sync::atomic::AtomicU8::new(0);
+
 pub fn run_conn(c: &Cfg, s: &SrvCfg) -> Run {
     let nt_hash = md4(&utf16(&c.pw));
     let acc = Account { domain: c.dom.clone(), user: c.user.clone(), password: c.pw.clone() };
@@ -195,8 +201,15 @@ pub fn run_conn(c: &Cfg, s: &SrvCfg) -> Run {
     let (c2, inputs) = (c.clone(), s.inputs.clone());
     let nreads = if s.reactivate.is_some() { 11 } else { 5 };
     let res = catch_unwind(AssertUnwindSafe(move || -> Result<(), String> {
-        let mut con = Connector::new().screen(c2.w, c2.h).credentials(c2.dom.clone(), c2.user.clone(), c2.pw.clone())
-            .set_restricted_admin_mode(c2.ra).auto_logon(c2.auto).blank_creds(c2.blank).use_nla(c2.nla).layout(layout_of(c2.lay)).name(c2.name.clone()).check_certificate(c2.check);
+        let hist = BUILDER_HIST.load(std::sync::atomic::Ordering::Relaxed);
+        let mut con = Connector::new().screen(c2.w, c2.h).credentials(c2.dom.clone(), c2.user.clone(), c2.pw.clone());
+        con = match hist {
+            1 => con.set_restricted_admin_mode(true).blank_creds(c2.blank).set_restricted_admin_mode(c2.ra),
+            2 => con.blank_creds(true).set_restricted_admin_mode(true).set_restricted_admin_mode(c2.ra).blank_creds(c2.blank),
+            3 => con.set_restricted_admin_mode(!c2.ra).blank_creds(!c2.blank).auto_logon(!c2.auto).use_nla(!c2.nla).blank_creds(c2.blank).set_restricted_admin_mode(c2.ra),
+            _ => con.set_restricted_admin_mode(c2.ra).blank_creds(c2.blank),
+        };
+        let mut con = con.auto_logon(c2.auto).use_nla(c2.nla).layout(layout_of(c2.lay)).name(c2.name.clone()).check_certificate(c2.check);
         if c2.hash { con = con.set_password_hash(nt_hash.clone()); }
         // the SAME Connector used before: for a complete earlier connection (1), or for an attempt the
         // server answered with a negotiation failure (2)
@@ -228,8 +241,8 @@ pub fn run_conn(c: &Cfg, s: &SrvCfg) -> Run {
     let first = log.frames.iter().find(|f| f.len() >= 12 && f[7] >> 2 == 14).map(|f| ((f[10] as u32) << 8) | f[11] as u32).unwrap_or(0);
     let srvmsgs: Vec<String> = log.srv_msgs.iter().map(|m| hex(m)).collect();
     let capsh: Vec<String> = s.caps.iter().map(|x| hex(x)).collect();
-    let line = format!("conn w={} h={} lay={} name={} dom8={} usr8={} pwd8={} hash={} ra={} blank={} auto={} nla={} ssel={} id={} uid={} ver={} licnew={} share={} source={} caps={} cflags={:08x} react={} reuse={} jrefuse={} ber={} inputs={} sel={} first={} srvmsgs={} ccr={} au={} cj1={} cj2={} lic={} key={} dom16={} usr16={} neg={} chal={} cc={} ek={} pw16={} ud16={} cp16={} cp8={} spk={} r2obs={}",
-        c.w, c.h, c.lay, hex(c.name.as_bytes()), hex(c.dom.as_bytes()), hex(c.user.as_bytes()), hex(c.pw.as_bytes()), c.hash as u8, c.ra as u8, c.blank as u8, c.auto as u8, c.nla as u8,
+    let line = format!("conn hist={} w={} h={} lay={} name={} dom8={} usr8={} pwd8={} hash={} ra={} blank={} auto={} nla={} ssel={} id={} uid={} ver={} licnew={} share={} source={} caps={} cflags={:08x} react={} reuse={} jrefuse={} ber={} inputs={} sel={} first={} srvmsgs={} ccr={} au={} cj1={} cj2={} lic={} key={} dom16={} usr16={} neg={} chal={} cc={} ek={} pw16={} ud16={} cp16={} cp8={} spk={} r2obs={}",
+        BUILDER_HIST.load(std::sync::atomic::Ordering::Relaxed), c.w, c.h, c.lay, hex(c.name.as_bytes()), hex(c.dom.as_bytes()), hex(c.user.as_bytes()), hex(c.pw.as_bytes()), c.hash as u8, c.ra as u8, c.blank as u8, c.auto as u8, c.nla as u8,
         s.sel, s.id, s.uid, s.version, s.license_new as u8, s.share, hex(&s.source), capsh.join(","), s.chal_flags, s.reactivate.map(|x| x.to_string()).unwrap_or("-".into()), s.reuse, s.jrefuse, s.ber, s.inputs.join(","),
         log.sel, first, srvmsgs.join(","), hex(&log.ccr), hex(&log.au), hex(log.cjc.get(0).unwrap_or(&vec![])), hex(log.cjc.get(1).unwrap_or(&vec![])), hex(&log.lic), hex(&key), hex(&utf16(&c.dom)), hex(&utf16(&c.user)), hex(&nego), hex(&log.chal), hex(&cc), hex(&log.k.clone().unwrap_or(vec![0; 16])),
         hex(&utf16(&c.pw)), hex(&utf16(&(c.user.to_uppercase() + &c.dom))), hex(&utf16(&client_pw)), hex(client_pw.as_bytes()), hex(&spk), r2obs);
@@ -249,7 +262,7 @@ pub fn secrets_violation(c: &Cfg, r: &Run) -> Option<String> {
     if c.pw.chars().count() >= 3 {
         let nego = parse_ts_request(&log.m1).and_then(|f| f.nego).unwrap_or_default();
         let auth = parse_ts_request(&log.m2).and_then(|f| f.nego).unwrap_or_default();
-        for (what, hay) in &[("raw transport", &log.raw), ("negotiation request", &log.cr), ("NTLM negotiate", &nego), ("NTLM authenticate", &auth)] {
+        for (what, hay) in &[("raw transport", &log.raw), ("negotiation request", &log.cr), ("NTLM negotiate", &nego), ("NTLM authenticate", &auth), ("the first CredSSP message", &log.m1), ("the second CredSSP message", &log.m2), ("the third CredSSP message (authInfo must be sealed)", &log.m3)] {
             if contains(hay, &p8) || contains(hay, &p16) { return Some(format!("password found in {}", what)); }
         }
         // after TLS it may appear only in TSCredentials and in the Client Info PDU
@@ -375,7 +388,9 @@ pub fn run_case(toks: &[&str], em: &mut Emitter) {
     if toks[0] == "tlsgate" { tlsgate(em, b("check"), b("nla"), b("ra"), get("ssel").parse().unwrap_or(0)); return; }
     let s = SrvCfg { sel: get("ssel").parse().unwrap_or(0), id: get("id").parse().unwrap_or(1), uid: get("uid").parse().unwrap_or(1004), version: get("ver").parse().unwrap_or(0x80004), license_new: b("licnew"), share: get("share").parse().unwrap_or(0x103ea),
         caps, source: unhex(&get("source")), chal_flags: u32::from_str_radix(&get("cflags"), 16).unwrap_or(0), inputs: get("inputs").split(',').filter(|x| !x.is_empty()).map(|x| x.to_string()).collect(), script: vec![], reactivate: get("react").parse().ok(), reuse: get("reuse").parse().unwrap_or(0), jrefuse: get("jrefuse").parse().unwrap_or(0), ber: get("ber").parse().unwrap_or(0) };
+    BUILDER_HIST.store(get("hist").parse().unwrap_or(0), std::sync::atomic::Ordering::Relaxed);
     let _ = emit(em, &c, &s);
+    BUILDER_HIST.store(0, std::sync::atomic::Ordering::Relaxed);
 }
 
 /// the replayable part of a `conn` line (configuration and server choices, nothing observed)
@@ -417,7 +432,7 @@ pub fn default_caps() -> Vec<Vec<u8>> {
          refsrv::cap(9, &[0, 0, 0, 0])]
 }
 
-fn strings() -> Vec<&'static str> { vec!["", "a", "user", "Administrator", "√©l√®ve", "ÂêçÂâç", "üòÄuser", "√ütra√üe-long-name-√º", "0123456789abcdef", "0123456789abcdefXYZ", "√©√©√©√©√©√©√©√©√©√©√©√©√©√©√©√©", "üòÄüòÄüòÄüòÄüòÄüòÄüòÄüòÄ", "a b c",
+fn strings() -> Vec<&'static str> { vec!["", "a", "user", "a\u{0}b", "\u{0}", "Administrator", "√©l√®ve", "ÂêçÂâç", "üòÄuser", "√ütra√üe-long-name-√º", "0123456789abcdef", "0123456789abcdefXYZ", "√©√©√©√©√©√©√©√©√©√©√©√©√©√©√©√©", "üòÄüòÄüòÄüòÄüòÄüòÄüòÄüòÄ", "a b c",
     // up to 64 code points: 26 / 27 / 37 / 64 units, 32 surrogate pairs, 64 two-byte letters
     "abcdefghijklmnopqrstuvwxyz", "abcdefghijklmnopqrstuvwxyz0", "corp-domain-with-a-long-name.example.", "0123456789012345678901234567890123456789012345678901234567890123",
     "üòÄüòÄüòÄüòÄüòÄüòÄüòÄüòÄüòÄüòÄüòÄüòÄüòÄüòÄüòÄüòÄüòÄüòÄüòÄüòÄüòÄüòÄüòÄüòÄüòÄüòÄüòÄüòÄüòÄüòÄüòÄüòÄ", "√©√©√©√©√©√©√©√©√©√©√©√©√©√©√©√©√©√©√©√©√©√©√©√©√©√©√©√©√©√©√©√©√©√©√©√©√©√©√©√©√©√©√©√©√©√©√©√©√©√©√©√©√©√©√©√©√©√©√©√©√©√©√©√©"] }
@@ -425,7 +440,7 @@ fn strings() -> Vec<&'static str> { vec!["", "a", "user", "Administrator", "√©l√
 pub fn generate(prop: &str, thorough: bool, seed: u64, part: (usize, usize), em: &mut Emitter) {
     let mut r = Rng::new(seed ^ 0xC17C03);
     let strs = strings();
-    let pws = ["", "p", "password", "p√§ssw√∂rd", "ÂØÜÁ†Åüîëx", "P@ssw0rd!", "hunter2hunter2"];
+    let pws = ["", "p", "password", "p√§ssw√∂rd", "ÂØÜÁ†Åüîëx", "P@ssw0rd!", "hunter2hunter2", "pw\u{0}tail"];
     let mut idx = 0usize;
     let mut seen = std::collections::HashSet::new();
     // every mode combination {nla, restricted, blank, auto, hash} ...
@@ -438,8 +453,13 @@ pub fn generate(prop: &str, thorough: bool, seed: u64, part: (usize, usize), em:
                 nla: mode & 1 != 0, ra: mode & 2 != 0, blank: mode & 4 != 0, auto: mode & 8 != 0, hash: mode & 16 != 0, check: false };
             let mut flags: u32 = 0x40000000 | 0x20000000 | 0x00800000 | 0x00080000 | 0x00008000 | 0x00000200 | 0x00000020 | 0x00000010 | 0x00000004;
             if r.chance(1, 2) { flags |= 0x02000000; } if r.chance(3, 4) { flags |= 1; }
+            // servers that do not echo SEAL / SIGN: what the client seals does not depend on it
+            if mode % 5 == 1 { flags &= !0x20; } if mode % 7 == 3 { flags &= !0x10; }
+            // the order and repetition of the Connector's builder calls (last call per switch wins)
+            BUILDER_HIST.store(((mode + round as u32) % 4) as u8, std::sync::atomic::Ordering::Relaxed);
             let s = SrvCfg { sel: 0, id: 1 + (mode as usize % 2), uid: 1004, version: 0x80004, license_new: false, share: 0x103ea, caps: default_caps(), source: b"RDP\0".to_vec(), chal_flags: flags, inputs: vec!["P10:20:1:1".into(), "K30:1".into()], script: vec![], reactivate: None, reuse: if round % 2 == 1 { 1 + (mode % 2) as u8 } else { 0 }, jrefuse: 0, ber: 0 };
             let run = emit(em, &c, &s);
+            BUILDER_HIST.store(0, std::sync::atomic::Ordering::Relaxed);
             if prop == "C04" { emit_strict(em, &run, &mut seen); }
         }
     }
